@@ -48,6 +48,8 @@ def run_case(a):
     cli, drv, idx, seed, mode = a
     rnd = random.Random(seed)
     files = compound.gen(rnd, idx, nfiles=rnd.randint(1, 3), ntypes=rnd.randint(2, 4), ncmds=rnd.randint(1, 4))
+    if idx % 8 == 7:
+        files = compound.events_only(files, idx)
     root = common.scratch("c16")
     viol = []
     st = {"runs": 0, "paths_snapshotted": 0, "foreign_planted": 0, "mutating_syscalls_classified": 0}
